@@ -8,6 +8,11 @@ Tokens:  'F@<line>:<col>'  fresh allocation at that site
          'E:<path>'        an element of the container stored at path (dict value, list item)
          'C'               immutable constant / scalar
          'O:<callee>'      result of an unresolved call (opaque; reported, never a violation by itself)
+
+One level of structure below a fresh token is tracked (so that a *shallow* copy -- ``list(x)``, ``x[:]``, a comprehension that
+passes elements through, iteration through ``enumerate``/``zip`` -- keeps the identity of what it contains):
+    Analyzer.elems[F]   set of tokens of the elements of the fresh container allocated at F
+    Analyzer.tuples[F]  list (per position) of token sets of the fresh tuple allocated at F
 """
 import ast
 
@@ -54,6 +59,48 @@ class Analyzer:
         self.summaries = summaries if summaries is not None else {}
         self.depth = depth
         self.typed = typed or {}  # 'self.GFcalc' -> ClassInfo
+        self.elems = {}   # fresh container token -> tokens of its elements
+        self.tuples = {}  # fresh tuple token -> [tokens per position]
+
+    # ------------------------------------------------------------ one level of structure
+    def elements(self, toks):
+        """tokens of the elements of the containers ``toks`` (iteration, non-constant subscript)."""
+        out = set()
+        for t in toks:
+            if t in self.elems:
+                out |= self.elems[t]
+            elif t in self.tuples:
+                for pos in self.tuples[t]:
+                    out |= pos
+            elif t.startswith('A:'):
+                out.add('E:' + t[2:])
+            else:
+                out.add(t)
+        return out
+
+    def _container(self, node, elem_toks):
+        f = self._fresh(node)
+        self.elems.setdefault(f, set()).update(t for t in elem_toks if t != 'C')
+        return f
+
+    def _tuple(self, node, positions):
+        f = self._fresh(node)
+        old = self.tuples.get(f)
+        if old is None or len(old) != len(positions):
+            self.tuples[f] = [set(p) for p in positions]
+        else:
+            for o, p in zip(old, positions):
+                o |= p
+        return f
+
+    def _comprehension(self, e, env, res):
+        cur = dict(env)
+        for g in e.generators:
+            it = self.tok(g.iter, cur, res)
+            cur = self._assign(g.target, self.elements(it), cur, Analysis(), g)
+            for c in g.ifs:
+                self.tok(c, cur, res)
+        return cur
 
     # ------------------------------------------------------------ expressions
     def tok(self, e, env, res):
@@ -88,11 +135,24 @@ class Analyzer:
                 return {self._fresh(e)}
             out = set()
             for t in base:
-                if t.startswith('A:'):
+                if t in self.tuples:
+                    pos = self.tuples[t]
+                    k = e.slice.value if isinstance(e.slice, ast.Constant) and isinstance(e.slice.value, int) else None
+                    if k is not None and -len(pos) <= k < len(pos):
+                        out |= pos[k]
+                    else:
+                        for p_ in pos:
+                            out |= p_
+                elif t in self.elems:
+                    if isinstance(e.slice, ast.Slice):
+                        out.add(self._container(e, self.elems[t]))  # x[a:b] of a list: a shallow copy
+                    else:
+                        out |= self.elems[t] or {t}
+                elif t.startswith('A:'):
                     out.add('E:' + t[2:])
                 else:
                     out.add(t)
-            return out
+            return out or {'C'}
         if isinstance(e, (ast.BinOp, ast.UnaryOp, ast.Compare)):
             for sub in ast.iter_child_nodes(e):
                 if isinstance(sub, ast.expr):
@@ -111,8 +171,17 @@ class Analyzer:
             if known is False:
                 return self.tok(e.orelse, env, res)
             return self.tok(e.body, env, res) | self.tok(e.orelse, env, res)
-        if isinstance(e, (ast.ListComp, ast.SetComp, ast.DictComp, ast.GeneratorExp, ast.List, ast.Tuple, ast.Set,
-                          ast.Dict, ast.JoinedStr, ast.Lambda)):
+        if isinstance(e, (ast.ListComp, ast.SetComp, ast.GeneratorExp)):
+            cur = self._comprehension(e, env, res)
+            return {self._container(e, self.tok(e.elt, cur, res))}
+        if isinstance(e, (ast.List, ast.Set)):
+            et = set()
+            for x in e.elts:
+                et |= self.tok(x, env, res)
+            return {self._container(e, et)}
+        if isinstance(e, ast.Tuple):
+            return {self._tuple(e, [self.tok(x, env, res) for x in e.elts])}
+        if isinstance(e, (ast.DictComp, ast.Dict, ast.JoinedStr, ast.Lambda)):
             return {self._fresh(e)}
         if isinstance(e, ast.Starred):
             return self.tok(e.value, env, res)
@@ -149,6 +218,19 @@ class Analyzer:
                 if f.attr in NP_VIEW_FUNCS and c.args:
                     return argtoks[0]
                 return {self._fresh(c)}
+            if f.attr in ('values', 'items') and not c.args:
+                el = self.elements(self.tok(recv, env, res))
+                if f.attr == 'values':
+                    return {self._container(c, el)}
+                return {self._container(c, {self._tuple(c.func, [{'C'}, el])})}
+            if f.attr == 'copy' and not c.args:
+                # list.copy() / dict.copy() are shallow; ndarray.copy() is a new buffer (no recorded elements)
+                rt = self.tok(recv, env, res)
+                el = set()
+                for t in rt:
+                    if t in self.elems:
+                        el |= self.elems[t]
+                return {self._container(c, el)} if el else {self._fresh(c)}
             if f.attr in FRESH_METHODS:
                 self.tok(recv, env, res)
                 return {self._fresh(c)}
@@ -181,6 +263,12 @@ class Analyzer:
                 if len(c.args) > 2:
                     out |= argtoks[2]
                 return out
+            if f.id in ('list', 'tuple', 'sorted', 'reversed', 'iter', 'set', 'frozenset') and len(c.args) >= 1:
+                return {self._container(c, self.elements(argtoks[0]))}
+            if f.id == 'enumerate' and c.args:
+                return {self._container(c, {self._tuple(c.func, [{'C'}, self.elements(argtoks[0])])})}
+            if f.id == 'zip' and c.args:
+                return {self._container(c, {self._tuple(c.func, [self.elements(t) for t in argtoks[:len(c.args)]])})}
             if f.id in PURE_BUILTINS:
                 return {self._fresh(c)}
             if self.model is not None and self.module is not None:
@@ -285,8 +373,14 @@ class Analyzer:
             env[target.id] = set(toks)
             return env
         if isinstance(target, (ast.Tuple, ast.List)):
-            for t in target.elts:
-                env = self._assign(t, toks, env, res, node)
+            n = len(target.elts)
+            structured = [t for t in toks if t in self.tuples and len(self.tuples[t]) == n]
+            rest = set(toks) - set(structured)
+            for k, t in enumerate(target.elts):
+                tk = set(rest)
+                for st_ in structured:
+                    tk |= self.tuples[st_][k]
+                env = self._assign(t, tk or {'C'}, env, res, node)
             return env
         if isinstance(target, ast.Attribute):
             d = dotted(target)
@@ -310,7 +404,12 @@ class Analyzer:
                 while isinstance(root, ast.Subscript):
                     root = root.value
                 if isinstance(root, ast.Name):
-                    res.writes.append(Write(node, root.id, env.get(root.id, {'U:' + root.id}), 'subscript-store'))
+                    # the object whose item is replaced: the innermost base (c[i][2][:] = v writes the array c[i][2])
+                    written = self.tok(base, env, res) if isinstance(base, ast.Subscript) else env.get(root.id, {'U:' + root.id})
+                    for t in written:
+                        if t in self.elems and not isinstance(target.slice, ast.Slice):
+                            self.elems[t] |= {x for x in toks if x != 'C'}
+                    res.writes.append(Write(node, root.id, written, 'subscript-store'))
             return env
         return env
 
@@ -340,7 +439,8 @@ class Analyzer:
                     root = root.value
                 d = dotted(root)
                 if isinstance(root, ast.Name):
-                    res.writes.append(Write(st, root.id, env.get(root.id, {'U:' + root.id}), 'subscript-augassign'))
+                    written = self.tok(t.value, env, res) if isinstance(t.value, ast.Subscript) else env.get(root.id, {'U:' + root.id})
+                    res.writes.append(Write(st, root.id, written, 'subscript-augassign'))
                 elif d and d.split('.')[0] == self.selfname:
                     res.stores.append((st, d.replace(self.selfname, 'self', 1) + '[]', frozenset()))
                 return env
@@ -359,7 +459,16 @@ class Analyzer:
                     while isinstance(root, ast.Subscript):
                         root = root.value
                     if isinstance(root, ast.Name):
-                        res.writes.append(Write(st, root.id, env.get(root.id, {'U:' + root.id}), 'method:' + c.func.attr))
+                        recv_t = self.tok(c.func.value, env, res) if isinstance(c.func.value, ast.Subscript) \
+                            else env.get(root.id, {'U:' + root.id})
+                        if c.func.attr in ('append', 'add', 'insert', 'extend', 'update') and c.args:
+                            at = self.tok(c.args[-1], env, res)
+                            if c.func.attr in ('extend', 'update'):
+                                at = self.elements(at)
+                            for t_ in recv_t:
+                                if t_ in self.elems:
+                                    self.elems[t_] |= {x for x in at if x != 'C'}
+                        res.writes.append(Write(st, root.id, recv_t, 'method:' + c.func.attr))
                     else:
                         d = dotted(root)
                         if d and d.split('.')[0] == self.selfname:
@@ -388,9 +497,7 @@ class Analyzer:
         if isinstance(st, (ast.For, ast.AsyncFor)):
             it = self.tok(st.iter, env, res)
             # loop variable: element of the iterable
-            elem = set()
-            for t in it:
-                elem.add('E:' + t[2:] if t.startswith('A:') else t)
+            elem = self.elements(it)
             nwrites, nstores, nrets = len(res.writes), len(res.stores), len(res.returns)
             cur = env
             for _ in range(3):
